@@ -72,7 +72,7 @@ Definition c11_paren_witness : c11_obs :=
                        (t 7 false) false false BEmpty false 0 0 false) in
   {| o_entry := true; o_orig := {| m_ambient := false; m_items := [orig] |};
      o_emit := {| m_ambient := false; m_items := [emit] |};
-     o_orig_exports := [2]; o_emit_exports := [2]; o_exports_known := true; o_must_drop := [] |}.
+     o_orig_exports := [2]; o_emit_exports := [2]; o_exports_known := true; o_must_drop := []; o_must_drop_paths := [] |}.
 
 Theorem C11_paren_refuted : ~ ApiPreserved c11_paren_witness /\ c11_classes c11_paren_witness = [1101].
 Proof.
@@ -118,5 +118,5 @@ Example C11_nonvacuous :
   api_preservedb {| o_entry := true; o_orig := {| m_ambient := false; m_items := orig |};
                     o_emit := {| m_ambient := false; m_items := emit |};
                     o_orig_exports := [2; 11]; o_emit_exports := [11; 2]; o_exports_known := true;
-                    o_must_drop := [10] |} = true.
+                    o_must_drop := [10]; o_must_drop_paths := [[2; 16]; [3; 15]] |} = true.
 Proof. vm_compute. reflexivity. Qed.
